@@ -400,6 +400,19 @@ def replay_case(c):
     return f['kind'] if f else None
 
 
+def replay_regressions(ck):
+    """saved shrunk cases (regress/*_C19_*.json) are re-executed first; a failing one means a repaired defect came back"""
+    import glob
+    n = 0
+    for path in sorted(glob.glob(os.path.join(common.VERIF, 'regress', '*_C19_*.json'))):
+        case = json.load(open(path))['case']
+        n += 1
+        why = replay_case(case)
+        if why:
+            ck.violation(case, "regression file %s: %s" % (os.path.basename(path), why if isinstance(why, str) else 'violation'))
+    ck.extra_cov['regression_cases_replayed'] = n
+
+
 def run(tier):
     thorough = tier == 'thorough'
     ck = common.Check(PROP, tier, "exploration",
@@ -412,6 +425,7 @@ def run(tier):
                       "tree that had been built (or is partially dirty); compdb cases are distinct by their byte strings.",
                       simprops.ASSUME + ["empty directories and response files are not part of the snapshot (a dry run may create/remove them)",
                                          "-t commands may omit statements that are needed only as validations"])
+    replay_regressions(ck)
     r = common.run_workers(worker, [(w, (500 if thorough else 60), (500 if thorough else 40)) for w in range(common.NCPU)])
     ck.merge(r)
     for f in r.failures:
